@@ -622,7 +622,7 @@ func (e *Enc) builtin(f *frame, name string, c *ssa.CallCommon, args []Val, pos 
 func (e *Enc) copyBytes(dst, src Sl, n T) {
 	m := e.byteMem(e.cur)
 	na := e.freshT("cp", SArr)
-	srcA := e.def("cpsrc", sel(m, src.Arr))
+	srcA := e.def("cpsrc", e.memArr(e.cur, src.Arr))
 	dstA := e.def("cpdst", sel(m, dst.Arr))
 	e.assume(T{fmt.Sprintf("(forall ((j (_ BitVec 64))) (! (= (select %s j) (ite (bvult (bvsub j %s) %s) (select %s (bvadd %s (bvsub j %s))) (select %s j))) :pattern ((select %s j))))",
 		na.S, dst.Off.S, n.S, srcA.S, src.Off.S, dst.Off.S, dstA.S, na.S), SBool})
@@ -667,7 +667,7 @@ func (e *Enc) appendBuiltin(f *frame, c *ssa.CallCommon, args []Val, pos token.P
 	fresh := e.newArr()
 	newCap := e.freshT("appcap", SBV64)
 	e.assume(and(ule(newLen, newCap), ule(newCap, bv64(1<<48))))
-	srcA := e.def("appsrc", sel(m, t.Arr))
+	srcA := e.def("appsrc", e.memArr(e.cur, t.Arr))
 	oldA := e.def("appold", sel(m, s.Arr))
 	inPlace := e.freshT("appA", SArr)
 	realloc := e.freshT("appB", SArr)
@@ -815,9 +815,9 @@ func (e *Enc) constStr(v Val) (string, bool) {
 
 func (e *Enc) hasPrefix(s Str, p string) T {
 	cs := []T{ule(bv64(uint64(len(p))), s.Len)}
-	m := e.byteMem(e.cur)
+	a := e.memArr(e.cur, s.Arr)
 	for i := 0; i < len(p); i++ {
-		cs = append(cs, eq(sel(sel(m, s.Arr), add(s.Off, bv64(uint64(i)))), bv(uint64(p[i]), 8)))
+		cs = append(cs, eq(sel(a, add(s.Off, bv64(uint64(i)))), bv(uint64(p[i]), 8)))
 	}
 	return and(cs...)
 }
@@ -827,8 +827,8 @@ func (e *Enc) seqEq(a, b Sl) T { return e.seqEq2(e.cur, a, e.cur, b) }
 
 func (e *Enc) seqEq2(sa *State, a Sl, sb *State, b Sl) T {
 	e.usesSeq = true
-	ma := e.constFor("sqa", sel(e.byteMem(sa), a.Arr))
-	mb := e.constFor("sqb", sel(e.byteMem(sb), b.Arr))
+	ma := e.constFor("sqa", e.memArr(sa, a.Arr))
+	mb := e.constFor("sqb", e.memArr(sb, b.Arr))
 	e.recordSeqPair(seqTerm{arr: ma, s: a}, seqTerm{arr: mb, s: b})
 	return T{fmt.Sprintf("(= %s %s)", seqID(ma, a), seqID(mb, b)), SBool}
 }
@@ -836,7 +836,7 @@ func (e *Enc) seqEq2(sa *State, a Sl, sb *State, b Sl) T {
 // seqOf is the abstract sequence id of a byte slice (sort BSeq).
 func (e *Enc) seqOf(st *State, a Sl) T {
 	e.usesSeq = true
-	ma := e.constFor("sqa", sel(e.byteMem(st), a.Arr))
+	ma := e.constFor("sqa", e.memArr(st, a.Arr))
 	if e.loopDry == 0 {
 		e.seqTerms = append(e.seqTerms, seqAt{t: seqTerm{arr: ma, s: a}, at: len(e.lines)})
 		if e.seqByID == nil {
@@ -888,8 +888,8 @@ func (e *Enc) recordSeqPair(a, b seqTerm) {
 func (e *Enc) bytesCompare(a, b Sl) T {
 	e.usesSeq = true
 	e.usesLex = true
-	ma := e.constFor("cma", sel(e.byteMem(e.cur), a.Arr))
-	mb := e.constFor("cmb", sel(e.byteMem(e.cur), b.Arr))
+	ma := e.constFor("cma", e.memArr(e.cur, a.Arr))
+	mb := e.constFor("cmb", e.memArr(e.cur, b.Arr))
 	e.recordSeqPair(seqTerm{arr: ma, s: a}, seqTerm{arr: mb, s: b})
 	if e.loopDry == 0 && len(e.seqTerms) >= 2 {
 		e.seqTerms[len(e.seqTerms)-1].lex = true
